@@ -5,7 +5,7 @@
    Definitions only.  What is modelled:
    * dataset ids come from ONE counter (the class attribute Context.__last_rdd_id): [alloc_all];
    * a pipeline is a source (explicit partitions) followed by element-wise stages map / filter / flatMap
-     and persist marks; every stage is a dataset of its own with its own id; actions may be run on ANY
+     (and generator-style mapPartitions functions) and persist marks; every stage is a dataset of its own with its own id; actions may be run on ANY
      node (prefix) of a pipeline;
    * Python generator laziness: a partition is evaluated as a *lazy stream* whose cells carry the user
      calls that producing that element costs ([lstream]); take(n)/first() pull element by element and
@@ -31,12 +31,15 @@ Section Model.
 Variable A : Type.
 
 (* ------------------------------------------------------------------ user calls *)
-Record event := Ev { ev_rid : Z; ev_part : Z; ev_arg : A }.
+(* ev_arg: Some x = an element function was called on x; None = a partition function started to run *)
+Record event := Ev { ev_rid : Z; ev_part : Z; ev_arg : option A }.
 
 Inductive stage :=
 | SMap (f : A -> A)
 | SFilter (p : A -> bool)
 | SFlatMap (g : A -> list A)
+| SPart (h : list A -> list A)      (* mapPartitions / mapPartitionsWithIndex with a generator function
+                                      that consumes its whole input (in any number of steps) when first pulled *)
 | SPersist.
 
 Definition node := (Z * stage)%type.          (* (dataset id, what it does to its parent) *)
@@ -47,6 +50,7 @@ Definition plain_stage (s : stage) (xs : list A) : list A :=
   | SMap f => map f xs
   | SFilter p => filter p xs
   | SFlatMap g => flat_map g xs
+  | SPart h => h xs
   | SPersist => xs
   end.
 
@@ -68,14 +72,14 @@ Record lstream := LS { cells : list cell; trail : list event }.
 Definition of_list (xs : list A) : lstream := LS (map (fun x => ([], x)) xs) [].
 
 Definition lmap (rid i : Z) (f : A -> A) (s : lstream) : lstream :=
-  LS (map (fun c => (fst c ++ [Ev rid i (snd c)], f (snd c))) (cells s)) (trail s).
+  LS (map (fun c => (fst c ++ [Ev rid i (Some (snd c))], f (snd c))) (cells s)) (trail s).
 
 Fixpoint lfilter_go (rid i : Z) (p : A -> bool) (pend : list event) (cs : list cell) (tr : list event)
   : lstream :=
   match cs with
   | [] => LS [] (pend ++ tr)
   | (evs, x) :: cs' =>
-      let e := pend ++ evs ++ [Ev rid i x] in
+      let e := pend ++ evs ++ [Ev rid i (Some x)] in
       if p x then let r := lfilter_go rid i p [] cs' tr in LS ((e, x) :: cells r) (trail r)
       else lfilter_go rid i p e cs' tr
   end.
@@ -86,7 +90,7 @@ Fixpoint lflat_go (rid i : Z) (g : A -> list A) (pend : list event) (cs : list c
   match cs with
   | [] => LS [] (pend ++ tr)
   | (evs, x) :: cs' =>
-      let e := pend ++ evs ++ [Ev rid i x] in
+      let e := pend ++ evs ++ [Ev rid i (Some x)] in
       match g x with
       | [] => lflat_go rid i g e cs' tr
       | y :: ys => let r := lflat_go rid i g [] cs' tr in
@@ -94,6 +98,16 @@ Fixpoint lflat_go (rid i : Z) (g : A -> list A) (pend : list event) (cs : list c
       end
   end.
 Definition lflat rid i g (s : lstream) := lflat_go rid i g [] (cells s) (trail s).
+
+(* a generator function over the partition iterator: nothing happens until the first element is asked
+   for; then the body starts (logged), consumes the whole input -- every upstream call happens now --
+   and yields the elements of h(input) one by one *)
+Definition lpart (rid i : Z) (h : list A -> list A) (s : lstream) : lstream :=
+  let evs := Ev rid i None :: (concat (map fst (cells s)) ++ trail s) in
+  match h (map snd (cells s)) with
+  | [] => LS [] evs
+  | y :: ys => LS ((evs, y) :: map (fun y' => ([], y')) ys) []
+  end.
 
 Definition stream_elems (s : lstream) : list A := map snd (cells s).
 Definition stream_events (s : lstream) : list event := concat (map fst (cells s)) ++ trail s.
@@ -211,6 +225,8 @@ Fixpoint compute (now : Z) (rn : list node) (i : Z) (src : list A) (m : mgr)
       let '(s, m1, ev) := compute now up i src m in (lfilter rid i p s, m1, ev)
   | (rid, SFlatMap g) :: up =>
       let '(s, m1, ev) := compute now up i src m in (lflat rid i g s, m1, ev)
+  | (rid, SPart h) :: up =>
+      let '(s, m1, ev) := compute now up i src m in (lpart rid i h s, m1, ev)
   end.
 
 (* ------------------------------------------------------------------ jobs *)
@@ -430,7 +446,7 @@ Definition spec_action (w : world) (a : action) : result :=
 
 End Model.
 
-Arguments Ev {A}. Arguments SMap {A}. Arguments SFilter {A}. Arguments SFlatMap {A}. Arguments SPersist {A}.
+Arguments Ev {A}. Arguments SMap {A}. Arguments SFilter {A}. Arguments SFlatMap {A}. Arguments SPart {A}. Arguments SPersist {A}.
 Arguments LS {A}. Arguments Mgr {A}. Arguments Pipe {A}. Arguments World {A}. Arguments St {A}.
 Arguments RList {A}. Arguments RCount {A}. Arguments RElem {A}. Arguments RStop {A}. Arguments RNode {A}.
 Arguments RUnit {A}. Arguments RBad {A}.
@@ -443,6 +459,7 @@ Arguments lfilter_go {A}.
 Arguments lfilter {A}.
 Arguments lflat_go {A}.
 Arguments lflat {A}.
+Arguments lpart {A}.
 Arguments stream_elems {A}.
 Arguments stream_events {A}.
 Arguments force {A}.
